@@ -43,6 +43,14 @@ def table_rows(output: str):
 def invoke(args):
     from click.testing import CliRunner
     from space_packet_parser import cli
+    # a command-line run is a process of its own: the logging configuration an earlier run in this worker left on the root logger is taken
+    # away first (logging.basicConfig does nothing once the root logger has a handler), and put back afterwards
+    import logging
+    root = logging.getLogger()
+    saved = (list(root.handlers), root.level)
+    for h in saved[0]:
+        root.removeHandler(h)
+    root.setLevel(logging.WARNING)
     try:
         with case_alarm(15):
             r = CliRunner().invoke(cli.spp, args)
@@ -50,6 +58,12 @@ def invoke(args):
         return ("timeout", None, "")
     except MemoryError:
         return ("memory", None, "")
+    finally:
+        for h in list(root.handlers):
+            root.removeHandler(h)
+        for h in saved[0]:
+            root.addHandler(h)
+        root.setLevel(saved[1])
     exc = None
     if r.exception is not None and not isinstance(r.exception, SystemExit):
         exc = type(r.exception).__name__
